@@ -350,3 +350,126 @@ fn k_ts_9_tracked_field_read_reports_field_stamp() {
     std::mem::forget(z);
     std::mem::forget(ing);
 }
+
+// ---------------------------------------------------------------------------------------------
+// `new_struct` against the contracts of `update` (K-TS-5) and `allocate` (K-TS-8): both are stubbed
+// ---------------------------------------------------------------------------------------------
+/// 0: `update` returns `Ok(same id)`; 1: `Ok(next generation of the slot)` (identity fields changed, slot
+/// reused for the new value); 2: `Err(fields)` (value already updated in this revision: caller must allocate)
+pub(crate) static mut UPDATE_MODE: u8 = 0;
+pub(crate) static mut UPDATE_CALLS: u32 = 0;
+pub(crate) static mut ALLOC_CALLS: u32 = 0;
+pub(crate) const FRESH_SLOT: u32 = 40;
+pub(crate) fn stub_update<'db, C: Configuration>(_this: &'db IngredientImpl<C>, _zalsa: &'db Zalsa, id: Id, _deps: &Stamp, fields: C::Fields<'db>) -> Result<Id, C::Fields<'db>> {
+    // SAFETY: single-threaded harness
+    unsafe {
+        UPDATE_CALLS += 1;
+        match UPDATE_MODE {
+            0 => Ok(id),
+            1 => Ok(id.next_generation().unwrap()),
+            _ => Err(fields),
+        }
+    }
+}
+pub(crate) fn stub_allocate<'db, C: Configuration>(_this: &'db IngredientImpl<C>, _zalsa: &'db Zalsa, _zalsa_local: &'db ZalsaLocal, _deps: &Stamp, fields: C::Fields<'db>) -> Id {
+    std::mem::forget(fields);
+    // SAFETY: single-threaded harness; small index
+    unsafe {
+        ALLOC_CALLS += 1;
+        Id::from_index(FRESH_SLOT)
+    }
+}
+
+fn new_struct_case(seeded: bool, mode: u8) {
+    let z = crate::zalsa::verif::bare_zalsa();
+    let mut cell = crate::active_query::verif::stack_cell();
+    let l = crate::zalsa_local::verif::local_on(&mut cell);
+    let ing = IngredientImpl::<KT>::verif_new(IngredientIndex::new(4));
+    let creator = vk::key(5, 3);
+    let frame = l.push_query(creator);
+    let fields: (u32, u32) = (7, vk::any());
+    // the identity `new_struct` will compute for the first struct with these identity fields
+    let ident = identity(4, crate::hash::hash(&KT::untracked_fields(&fields)), 0);
+    let g: u32 = vk::any();
+    vk::assume(g < u32::MAX);
+    // SAFETY: small index
+    let old_id = unsafe { Id::from_index(3) }.with_generation(g);
+    if seeded {
+        // what `execute` does before running the user function (ids of the previous execution)
+        frame.seed_tracked_struct_ids(&[(ident, old_id)]);
+    }
+    // SAFETY: single-threaded harness
+    unsafe { UPDATE_MODE = mode };
+    let s = ing.new_struct(&z, &l, fields);
+    // SAFETY: single-threaded harness
+    let (uc, ac) = unsafe { (UPDATE_CALLS, ALLOC_CALLS) };
+    let expected = if !seeded || mode == 2 {
+        // SAFETY: small index
+        unsafe { Id::from_index(FRESH_SLOT) }
+    } else if mode == 1 {
+        old_id.next_generation().unwrap()
+    } else {
+        old_id
+    };
+    assert!(s.0 == expected);
+    assert!(uc == if seeded { 1 } else { 0 });
+    assert!(ac == if !seeded || mode == 2 { 1 } else { 0 });
+    // what the executing query now records for that identity
+    assert!(l.tracked_struct_id(&ident) == Some(expected));
+    vcover!();
+    std::mem::forget(frame);
+    std::mem::forget(ing);
+    std::mem::forget(l);
+    std::mem::forget(z);
+}
+
+//@ob id=G-NEW-1a kind=C props=C06,C07,C01 timeout=1800 fn=IngredientImpl::new_struct,ZalsaLocal::disambiguate,ZalsaLocal::tracked_struct_id,ZalsaLocal::store_tracked_struct_id,IdentityMap::reuse,IdentityMap::insert,DisambiguatorMap::disambiguate flags=stubs,noreplay
+//@ pre: a query is executing (real query stack); its identity map was seeded from the previous execution with the identity of the struct it is about to create mapped to a slot of any generation; `update` (stub = its contract, K-TS-5) keeps the id (the three outcomes are three harnesses: a symbolic outcome exhausts CBMC's memory); `allocate` (stub) hands out a fresh slot
+//@ post: the struct returned is the one `update`/`allocate` produced, and **the executing query's identity map maps the identity to exactly the returned id** (what gets stored in the memo and seeds the next execution): same id when unchanged, the bumped generation when the slot was reused for changed identity fields, the fresh id otherwise
+//@ post: `update` is consulted only for a seeded identity, `allocate` only when there was none or `update` refused
+#[cfg(kani)]
+#[kani::proof]
+#[kani::unwind(5)]
+#[kani::stub(crate::tracked_struct::IngredientImpl::update, stub_update)]
+#[kani::stub(crate::tracked_struct::IngredientImpl::allocate, stub_allocate)]
+fn g_new_1a_seeded_identity_kept() {
+    new_struct_case(true, 0)
+}
+
+//@ob id=G-NEW-1c kind=C props=C06,C07,C01 timeout=1800 fn=IngredientImpl::new_struct,ZalsaLocal::disambiguate,ZalsaLocal::tracked_struct_id,ZalsaLocal::store_tracked_struct_id,IdentityMap::reuse,IdentityMap::insert,DisambiguatorMap::disambiguate flags=stubs,noreplay
+//@ pre: a query is executing (real query stack); its identity map was seeded from the previous execution with the identity of the struct it is about to create mapped to a slot of any generation; `update` (stub = its contract, K-TS-5) moves to the next generation of the slot (the three outcomes are three harnesses: a symbolic outcome exhausts CBMC's memory); `allocate` (stub) hands out a fresh slot
+//@ post: the struct returned is the one `update`/`allocate` produced, and **the executing query's identity map maps the identity to exactly the returned id** (what gets stored in the memo and seeds the next execution): same id when unchanged, the bumped generation when the slot was reused for changed identity fields, the fresh id otherwise
+//@ post: `update` is consulted only for a seeded identity, `allocate` only when there was none or `update` refused
+#[cfg(kani)]
+#[kani::proof]
+#[kani::unwind(5)]
+#[kani::stub(crate::tracked_struct::IngredientImpl::update, stub_update)]
+#[kani::stub(crate::tracked_struct::IngredientImpl::allocate, stub_allocate)]
+fn g_new_1c_seeded_identity_slot_reused() {
+    new_struct_case(true, 1)
+}
+
+//@ob id=G-NEW-1d kind=C props=C06,C07,C01 timeout=1800 fn=IngredientImpl::new_struct,ZalsaLocal::disambiguate,ZalsaLocal::tracked_struct_id,ZalsaLocal::store_tracked_struct_id,IdentityMap::reuse,IdentityMap::insert,DisambiguatorMap::disambiguate flags=stubs,noreplay
+//@ pre: a query is executing (real query stack); its identity map was seeded from the previous execution with the identity of the struct it is about to create mapped to a slot of any generation; `update` (stub = its contract, K-TS-5) refuses (the three outcomes are three harnesses: a symbolic outcome exhausts CBMC's memory); `allocate` (stub) hands out a fresh slot
+//@ post: the struct returned is the one `update`/`allocate` produced, and **the executing query's identity map maps the identity to exactly the returned id** (what gets stored in the memo and seeds the next execution): same id when unchanged, the bumped generation when the slot was reused for changed identity fields, the fresh id otherwise
+//@ post: `update` is consulted only for a seeded identity, `allocate` only when there was none or `update` refused
+#[cfg(kani)]
+#[kani::proof]
+#[kani::unwind(5)]
+#[kani::stub(crate::tracked_struct::IngredientImpl::update, stub_update)]
+#[kani::stub(crate::tracked_struct::IngredientImpl::allocate, stub_allocate)]
+fn g_new_1d_seeded_identity_refused() {
+    new_struct_case(true, 2)
+}
+
+//@ob id=G-NEW-1b kind=C props=C06 timeout=1800 fn=IngredientImpl::new_struct,ZalsaLocal::disambiguate,ZalsaLocal::tracked_struct_id,ZalsaLocal::store_tracked_struct_id flags=stubs,noreplay
+//@ pre: as G-NEW-1a, but the identity was not created by the previous execution (first execution, or a newly created struct)
+//@ post: a fresh slot is allocated (`update` is not consulted) and the executing query records the identity with exactly that id
+#[cfg(kani)]
+#[kani::proof]
+#[kani::unwind(5)]
+#[kani::stub(crate::tracked_struct::IngredientImpl::update, stub_update)]
+#[kani::stub(crate::tracked_struct::IngredientImpl::allocate, stub_allocate)]
+fn g_new_1b_fresh_identity() {
+    new_struct_case(false, 0)
+}
